@@ -140,6 +140,55 @@ def _civil_types(u, f, g, dom, raw, prev, cur):
     return True, ''
 
 
+def _shift_width(ctx, rule, u, f, shift_decl, K):
+    # width: elapsed < 2^63, so the count reaches (2^63-1)/cycle + 1 (about 7.3e8): every product of the count is
+    # evaluated in a type that holds count_max * factor, and the count itself is stored without loss
+    from ..expr import type_range
+    cmax = (2 ** 63 - 1) // K + 1
+    fold = Folder(u)
+    nprod = 0
+    for x in walk(f):
+        if x.get('kind') != 'BinaryOperator' or x.get('opcode') != '*':
+            continue
+        ops = [peel(o, explicit=True) for o in kids(x)]
+        idx = [i for i, o in enumerate(ops) if o.get('kind') == 'DeclRefExpr' and (o.get('referencedDecl') or {}).get('id') == shift_decl['id']]
+        if len(idx) != 1:
+            continue
+        c = fold.fold(kids(x)[1 - idx[0]])
+        if c is None:
+            continue
+        nprod += 1
+        need = min(cmax * abs(c), 2 ** 63 - 1)
+        r = type_range(dtype(x) or qtype(x))
+        ctx.check(r is not None and r[0] <= -need and need <= r[1], rule,
+                  'shift count * %d is evaluated in a type that holds %d' % (c, need), x,
+                  'the shift count reaches %d for instants near time_point::max(); its product with %d is evaluated in %s, '
+                  'which overflows: the civil year (or the instant stepped back) is wrong for far-future instants'
+                  % (cmax, c, dtype(x) or qtype(x)), construct='shift:width:%d' % c)
+    r = type_range(dtype(shift_decl) or qtype(shift_decl))
+    casts = [y for y in walk(kids(shift_decl)[-1]) if y.get('kind') in ('ImplicitCastExpr', 'CXXStaticCastExpr', 'CStyleCastExpr', 'CXXFunctionalCastExpr')
+             and y.get('castKind') == 'IntegralCast']
+    narrow = [y for y in casts if (type_range(dtype(y) or qtype(y)) or (0, 0))[1] < cmax]
+    ctx.check(r is not None and r[1] >= cmax and not narrow, rule, 'shift count stored without loss (up to %d)' % cmax, shift_decl,
+              'the shift count reaches %d but is stored in / cast to %s' % (cmax, (dtype(narrow[0]) if narrow else dtype(shift_decl))),
+              construct='shift:width:count')
+    ctx.check(nprod >= 2, rule, 'both products of the shift count found', shift_decl, 'found %d' % nprod, construct='shift:width:n')
+
+
+def check_shift_width(ctx, rule):
+    """The width clause of the 400-year shift of BreakTime, on its own (C10 reports it as its own clause)."""
+    u, d = one_var(ctx.P, 'cctz::kSecsPer400Years')
+    K = Folder(u).fold(kids(d)[-1])
+    u, f = ctx.fn('cctz::TimeZoneInfo::BreakTime')
+    C400 = 'n:%d' % K
+    shift = [x for x in walk(f) if x.get('kind') == 'VarDecl' and kids(x) and Keys(u).key(kids(x)[-1]).endswith('/ %s) + n:1)' % C400)]
+    if len(shift) != 1:
+        ctx.unknown(rule, 'shift count of BreakTime', f, 'the declaration of the 400-year shift count (elapsed / cycle + 1) was not found',
+                    construct='shift:count')
+        return
+    _shift_width(ctx, rule, u, f, shift[0], K)
+
+
 def run(ctx):
     G = ctx.G
     # ---- C01-cal
@@ -264,39 +313,7 @@ def run(ctx):
                   'one shift count scales both the seconds stepped back and the years added back', shift[0],
                   'the instant is stepped back by shift*kSecsPer400Years seconds but the civil year is not moved forward by the '
                   'same shift*400 years (or the recursion does not use the stepped-back instant)', construct='shift:pair')
-        # width: elapsed < 2^63, so the count reaches (2^63-1)/cycle + 1 (about 7.3e8): every product of the count is
-        # evaluated in a type that holds count_max * factor, and the count itself is stored without loss
-        from ..expr import type_range
-        K = vals['kSecsPer400Years']
-        cmax = (2 ** 63 - 1) // K + 1
-        fold = Folder(u)
-        nprod = 0
-        for x in walk(f):
-            if x.get('kind') != 'BinaryOperator' or x.get('opcode') != '*':
-                continue
-            ops = [peel(o, explicit=True) for o in kids(x)]
-            idx = [i for i, o in enumerate(ops) if o.get('kind') == 'DeclRefExpr' and (o.get('referencedDecl') or {}).get('id') == shift[0]['id']]
-            if len(idx) != 1:
-                continue
-            c = fold.fold(kids(x)[1 - idx[0]])
-            if c is None:
-                continue
-            nprod += 1
-            need = min(cmax * abs(c), 2 ** 63 - 1)
-            r = type_range(dtype(x) or qtype(x))
-            ctx.check(r is not None and r[0] <= -need and need <= r[1], 'C01-search',
-                      'shift count * %d is evaluated in a type that holds %d' % (c, need), x,
-                      'the shift count reaches %d for instants near time_point::max(); its product with %d is evaluated in %s, '
-                      'which overflows: the civil year (or the instant stepped back) is wrong for far-future instants'
-                      % (cmax, c, dtype(x) or qtype(x)), construct='shift:width:%d' % c)
-        r = type_range(dtype(shift[0]) or qtype(shift[0]))
-        casts = [y for y in walk(kids(shift[0])[-1]) if y.get('kind') in ('ImplicitCastExpr', 'CXXStaticCastExpr', 'CStyleCastExpr', 'CXXFunctionalCastExpr')
-                 and y.get('castKind') == 'IntegralCast']
-        narrow = [y for y in casts if (type_range(dtype(y) or qtype(y)) or (0, 0))[1] < cmax]
-        ctx.check(r is not None and r[1] >= cmax and not narrow, 'C01-search', 'shift count stored without loss (up to %d)' % cmax, shift[0],
-                  'the shift count reaches %d but is stored in / cast to %s' % (cmax, (dtype(narrow[0]) if narrow else dtype(shift[0]))),
-                  construct='shift:width:count')
-        ctx.check(nprod >= 2, 'C01-search', 'both products of the shift count found', shift[0], 'found %d' % nprod, construct='shift:width:n')
+        _shift_width(ctx, 'C01-search', u, f, shift[0], vals['kSecsPer400Years'])
         fs = F.facts_at_ast(shift[0]) or frozenset()
         last = 'this.transitions_[(this.transitions_.size() - n:1)].unix_time'
         def _res(a_):
